@@ -108,6 +108,10 @@ type c02Wrapper struct {
 	// waitsForCancel: the host function of the wrapper pauses between two invocations of the script
 	// callback until the (asynchronous) cancellation has landed (a backoff wait)
 	waitsForCancel bool
+	// onePosition: phase enum runs the wrapper with every core in ONE position (last statement /
+	// followed by further statements, alternating with core and wrapper) instead of both; the
+	// random phase draws the position freely
+	onePosition bool
 }
 
 // c02Holder: a host struct with a func-typed field a script assigns to
@@ -425,6 +429,9 @@ func init() {
 		for _, tr := range []bool{false, true} {
 			enum = append(enum, c02Case{core: ci, trailing: tr})
 			for wi := range c02Wrappers {
+				if c02Wrappers[wi].onePosition && tr != ((ci+wi)%2 == 1) {
+					continue
+				}
 				enum = append(enum, c02Case{core: ci, wrappers: []int{wi}, trailing: tr})
 			}
 		}
@@ -438,11 +445,13 @@ func init() {
 			}
 			return fw.Plan{
 				Level: "exploration",
-				Rule:  "programs that never terminate by construction: a core (spinning: every loop form, for-in nested in a loop, unbounded recursion through 0/1/3/6-parameter, variadic and mutually recursive functions, tick-less loops; blocked: receive expression/statement with and without ok, send on unbuffered and full channels, range over an open channel, forwarding `out <- <- ch`, and the channel-to-channel form `dst <- src` blocked in its sending half (value ready in src; dst unbuffered or full; script-made and host-made channels), in its receiving half, and as a pipeline stage in a loop / function / goroutine; practically endless recursion (2^64 calls, depth 64) through functions whose body is exactly one `return <expr>`: 1 and 6 parameters, variadic, lambda variable, map member, zero-parameter closures, mutual recursion 0/1/6, through a host callback, with a probe at the leaves or probe-less) under 0-3 wrappers (script function of arity 0/1/4/6/variadic/spread call, anonymous/member/module call, module body, go + blocked parent, try/catch/finally bodies, either side of ??, ternary arm, call argument, deferred callee (after return / after error / top level), switch, if/else, for-in, callbacks handed to Go func types with and without an error result; host functions that invoke the callback several times (retry, each, sort-like, value+error, stored struct field) or only after Go-side work, where the host cancels the context itself between two invocations or waits there until the asynchronous cancellation has landed, so that the never-terminating invocation STARTS under a cancelled context; the target expressions of a receive statement), last or followed by further statements. phase contended = a script consuming a buffered channel (range / receive statement / receive with ok, at top level or in a function) while host goroutines take values from the same channel and a host producer feeds it; when the feed has stopped and the buffer is empty the context is cancelled (150 trials per case; only the last values fed matter, so feeds are short; channel capacity, number of competing consumers and feed length from the PRNG). Cancellation instant: synchronous (the k-th probe cancels, k swept) or asynchronous (a harness goroutine cancels after 0-3 ms at GOMAXPROCS 1/2/16). phase enum = every core x every single wrapper x both positions (complete); phase random = PRNG wrapper chains of length 0-3. Non-trivial = the program was running (>= 1 probe event or a blocked core) when the cancel landed; distinct = (program, mode, k).",
+				Rule:  "programs that never terminate by construction: a core (spinning: every loop form, for-in nested in a loop, unbounded recursion through 0/1/3/6-parameter, variadic and mutually recursive functions, tick-less loops; blocked: receive expression/statement with and without ok, send on unbuffered and full channels, range over an open channel, forwarding `out <- <- ch`, and the channel-to-channel form `dst <- src` blocked in its sending half (value ready in src; dst unbuffered or full; script-made and host-made channels), in its receiving half, and as a pipeline stage in a loop / function / goroutine; practically endless recursion (2^64 calls, depth 64) through functions whose body is exactly one `return <expr>`: 1 and 6 parameters, variadic, lambda variable, map member, zero-parameter closures, mutual recursion 0/1/6, through a host callback, with a probe at the leaves or probe-less) under 0-3 wrappers (script function of arity 0/1/4/6/variadic/spread call, anonymous/member/module call, module body, go + blocked parent, try/catch/finally bodies, either side of ??, ternary arm, call argument, deferred callee (after return / after error / top level), switch, if/else, for-in, callbacks handed to Go func types with and without an error result; host functions that invoke the callback several times (retry, each, sort-like, value+error, stored struct field) or only after Go-side work, where the host cancels the context itself between two invocations or waits there until the asynchronous cancellation has landed, so that the never-terminating invocation STARTS under a cancelled context; the target expressions of a receive statement; round 5 (c02_r5.go): callbacks of Go types that take a context.Context (first/last/only parameter, with value, error and multiple results, script function variadic, stored in a struct field and called by host or script, appended to a host slice, returned by another callback, retried with a host cancel between / a wait for the cancel) which the host invokes with context.Background(), a context of its own not derived from the run's, or nil; script functions converted by every store/append into a container with a Go func element type (+ and += of one value on host-owned, make()-made, literal and member slices, index store, index append, typed map index/member store, typed map literal, host-owned map, store through a pointer, send on a script-made typed channel, list and nested list given to []func() / [][]func() parameters) and then invoked by the script or by a host function; script functions returned in result positions of Go callback types (func with error / bool / in second / middle-of-three position, with parameter and result, the result list as one list value, slices and maps of funcs as single or one of several results, func() error as result, factory of factory, host cancels between two invocations of the returned function); a callback the host runs on a goroutine of its own while the script is blocked), last or followed by further statements. phase contended = a script consuming a buffered channel (range / receive statement / receive with ok, at top level or in a function) while host goroutines take values from the same channel and a host producer feeds it; when the feed has stopped and the buffer is empty the context is cancelled (150 trials per case; only the last values fed matter, so feeds are short; channel capacity, number of competing consumers and feed length from the PRNG). Cancellation instant: synchronous (the k-th probe cancels, k swept) or asynchronous (a harness goroutine cancels after 0-3 ms at GOMAXPROCS 1/2/16). phase enum = every core x every single wrapper x both positions (complete), except that each round-5 wrapper is run with every core in ONE of the two positions (alternating with core and wrapper; the random phase draws the position freely); phase random = PRNG wrapper chains of length 0-3. Non-trivial = the program was running (>= 1 probe event or a blocked core) when the cancel landed; distinct = (program, mode, k).",
 				Assumptions: []string{"the error must carry the text \"execution interrupted\" (vm.ErrInterrupt or a *vm.Error wrapping it)",
 					"after cancel() returned, at most 2*(ticks per cycle)+goroutines+2 further probe events are tolerated (the expression in progress may finish)",
 					"a call that has not returned is judged from two goroutine-state samples and the process CPU time consumed since the cancel; a wall-clock expiry alone is inconclusive",
 					"time inside one single host Go call is outside the bound (the callback wrappers are NOT host calls: the script function they invoke is script code; a host function that waits for the cancellation between two invocations of its callback returns from that wait when the cancellation lands, the invocation that follows is script code again)",
+					"a context.Context that the host passes to a callback as an argument is a plain value for the script function; the statement names only the context given to ExecuteContext/RunContext, so that one has to stop the callback whatever context (background, the host's own, nil) arrives as argument; the harness never cancels the contexts it passes as arguments",
+					"a host goroutine that runs a callback recovers the panic by which the adapter reports the callback's interruption; only that the callback stops (probe events after the cancel) and that the call returns the error are judged",
 					"excluded for now (constants c02PendingFix_*, reported for repair): an interruption while the ok target of `v, target = <- ch` is evaluated; a script function stored in a Go func-typed slot by an earlier run and called by a later one"},
 				Phases: []fw.Phase{
 					{Name: "enum", Cases: len(fixed) + len(enum), Chunk: 40, Exhaust: true, TimeoutS: 900, Jobs: 8},
@@ -620,6 +629,7 @@ func c02Run(c *wk.Case, cc c02Case, delay time.Duration) {
 		return v
 	})
 	hold.between = doCancel
+	c02DefineR5(e, ctx, doCancel)
 
 	if prelude != "" {
 		if po := ank.Exec(e, prelude); po.Err != nil || po.Panicked {
